@@ -13,7 +13,7 @@ import (
 func init() {
 	register(&Def{ID: "C05", Engine: "E2", Run: runC05,
 		Rule: "for every access pattern (atlas layouts + view-graph states) an explicit-state BFS over the iterator state machine with alphabet {Next, NextValidity, NextValid, NextInvalid, Reset, SetReverse, SetForward, Start} (Coord and Done observed in every state) to depth size+3, states deduplicated on (model position, direction, private cursor); " +
-			"masked: every mask over <= N elements x the same machine; multi-iterator: every ordered pair and triple of equal-shape layouts. one case = one access pattern (or one mask / one tuple) with its complete state graph; non-trivial = size >= 2",
+			"the channel form (Chan) and the generic constructors (IteratorFromDense, t.Iterator) must deliver the same sequence; masked: every mask over <= N elements x the same machine; multi-iterator: every ordered pair and triple of equal-shape layouts. one case = one access pattern (or one mask / one tuple) with its complete state graph; non-trivial = size >= 2",
 		Assume: []string{"expected offsets come from the model's cell map minus the window offset; states whose access pattern differs from the model (C02/C03 findings) are skipped", "Coord is documented as the NEXT coordinate; it is not judged once the iterator is exhausted"}})
 }
 
